@@ -211,6 +211,9 @@ def run(tier, seed, build):
         rep.violation("ABD/ABDE are not the documented block arrangement of A, B, D, E", dict(stack=st, offset=off))
     rep.cov["traces_validated_against_impl"] = len(groups)
     rep.cov["evaluations"] = nev
+    # the Laminate object's other public methods (lamination parameters, forcing, equivalent moduli): LamObject.tla
+    import lamobject
+    lamobject.phase(rep, tier, seed)
     rep.sample([{k: v for k, v in e.items() if k != "obs"} for e in groups[0]])
     rep.sample([{k: v for k, v in e.items() if k != "obs"} for e in groups[len(defs) + 1]])
     rep.sample([{k: v for k, v in e.items() if k != "obs"} for e in groups[-1]])
